@@ -381,6 +381,27 @@ func (f *arFwdService) handle(w http.ResponseWriter, r *http.Request) {
 			}
 		}
 		w.WriteHeader(500)
+	case "raw101", "raw099", "raw100", "raw000":
+		// final answers below 200, written on the raw connection (net/http's server cannot produce them):
+		// only 2xx admits, so each of them must end in 503
+		if hj, ok := w.(http.Hijacker); ok {
+			c, _, err := hj.Hijack()
+			if err == nil {
+				switch b {
+				case "raw101":
+					io.WriteString(c, "HTTP/1.1 101 Switching Protocols\r\nConnection: Upgrade\r\nUpgrade: verif\r\n\r\n")
+				case "raw099":
+					io.WriteString(c, "HTTP/1.1 099 Odd\r\nContent-Length: 0\r\nConnection: close\r\n\r\n")
+				case "raw100":
+					io.WriteString(c, "HTTP/1.1 100 Continue\r\n\r\nHTTP/1.1 100 Continue\r\n\r\n")
+				case "raw000":
+					io.WriteString(c, "HTTP/1.1 000 Zero\r\nContent-Length: 0\r\nConnection: close\r\n\r\n")
+				}
+				c.Close()
+				return
+			}
+		}
+		w.WriteHeader(500)
 	case "302loc":
 		w.Header().Set("Location", "/ok")
 		w.WriteHeader(302)
